@@ -131,7 +131,9 @@ class TapePrimary(BasePrimary):
             tape[:, 0] = s0
         else:  # grid
             z[:, 0] = 0
-            tape = s0 + (z.cumsum(1) * 4).round() / 64.0
+            # a dyadic grid relative to the initial price (exact ties on dyadic strikes when s0 = 1), floored at s0/64:
+            # a price tape does not go through zero, whatever the scale and the horizon
+            tape = s0 * (1.0 + (z.cumsum(1) * 4).round() / 64.0).clamp(min=1.0 / 64.0)
         # like the built-in instruments: produce the series in the declared dtype, else the default
         self.register_buffer("spot", tape.to(self.dtype if self.dtype is not None else torch.get_default_dtype()))
 
